@@ -365,48 +365,174 @@ def validate_all(ctx, module, traces, tag, consts="", batch_bytes=12 << 20, work
 
 
 # ------------------------------------------------------------------------------------------------
-# the factory table (spec/SourceKind.tla): open one (source kind, BOM, override, transport) row for real
+# the factory table (spec/SourceKind.tla): open one (source kind, BOM, override, transport, state at hand-over) row
 ROW_EXTRA = {"utf-8": "é€", "utf-16le": "é€", "utf-16be": "é€", "windows-1252": "é€", "shift_jis": "日本",
              "iso-8859-2": "ł", "koi8-r": "ж", "gb18030": "中"}
+ROW_PREFIX = "XYZ\n"          # what the caller consumed before handing the source over (pos = mid / end)
+_tmp = {}
+
+
+def _tmpdir():
+    import atexit
+    import os
+    import shutil
+    import tempfile
+    if _tmp.get("pid") != os.getpid():
+        d = tempfile.mkdtemp(prefix="c05-")
+        _tmp.update(pid=os.getpid(), dir=d, n=0)
+        atexit.register(shutil.rmtree, d, True)
+    _tmp["n"] += 1
+    return os.path.join(_tmp["dir"], "f%d" % _tmp["n"])
+
+
+def _duck(inner, seek, mode):
+    """duck-typed source around a StringIO / BytesIO: short reads, and exactly the attributes the row asks for"""
+    ns = {"read": lambda self, n=-1: inner.read(min(n, 5) if n and n > 0 else n)}
+    if seek:
+        ns["seek"] = lambda self, *a: inner.seek(*a)
+        ns["tell"] = lambda self: inner.tell()
+        ns["seekable"] = lambda self: True
+    elif mode != "none":
+        def nope(self, *a):
+            raise io.UnsupportedOperation("not seekable")
+        ns.update(seek=nope, tell=nope, seekable=nope)
+    if mode != "none":
+        ns.update(mode=1 if mode == "int" else mode, name="<duck>", encoding="utf-8", closed=False)
+    return type("Duck", (object,), ns)()
+
+
+def library_source(name, data, charset):
+    """the named source kinds of SourceKind.Library / Plain over `data` (str for text kinds, bytes otherwise);
+    returns (object, keepalive)"""
+    import codecs as _codecs
+    import gzip
+    import zipfile
+    keep = None
+    if name in ("str", "bytes"):
+        return data, keep
+    if name == "stringio":
+        return io.StringIO(data, newline=""), keep
+    if name == "textiowrapper":
+        return io.TextIOWrapper(io.BytesIO(data.encode("utf-8")), encoding="utf-8", newline=""), keep
+    if name == "bytesio":
+        return io.BytesIO(data), keep
+    if name == "bufferedreader":
+        return io.BufferedReader(io.BytesIO(data)), keep
+    if name in ("httpresponse", "httpchunked", "addinfourl"):
+        return byte_source(name, data, charset), keep
+    path = _tmpdir()
+    raw = data.encode("utf-8") if isinstance(data, str) else data
+    if name in ("gziptext", "gzipbin"):
+        raw = gzip.compress(raw)
+    if name == "zipmember":
+        with zipfile.ZipFile(path, "w") as zf:
+            zf.writestr("doc.html", raw)
+        keep = zipfile.ZipFile(path)
+        return keep.open("doc.html"), keep
+    with open(path, "wb") as f:
+        f.write(raw)
+    if name == "textfile":
+        return open(path, "r", encoding="utf-8", newline=""), keep
+    if name == "codecsopen":
+        return _codecs.open(path, encoding="utf-8"), keep
+    if name == "gziptext":
+        return gzip.open(path, "rt", encoding="utf-8", newline=""), keep
+    if name == "binfile":
+        return open(path, "rb"), keep
+    if name == "rawfile":
+        return open(path, "rb", buffering=0), keep
+    if name == "gzipbin":
+        return gzip.open(path, "rb"), keep
+    raise ValueError(name)
+
+
+def _claims(obj, k):
+    """the attributes SourceKind.tla ascribes to this kind must be the ones the object really has"""
+    m = getattr(obj, "mode", None)
+    mode = "none" if m is None else (m if isinstance(m, str) and m in ("r", "rb") else "int" if not isinstance(m, str) else "?" + m)
+    try:
+        obj.seek(obj.tell())
+        seek = True
+    except Exception:       # noqa
+        seek = False
+    if (mode, seek) != (k["mode"], k["seek"]):
+        raise RuntimeError("SourceKind.tla describes %s as mode=%s seek=%s, the object has mode=%s seek=%s"
+                           % (k["name"], k["mode"], k["seek"], mode, seek))
 
 
 def open_row(row, fragment=False):
-    """returns what the real factory did: dict(out, enc, conf) and whether the tree equals the str parse"""
+    """returns what the real factory / stream did with this row: dict(out, enc, conf, tree)
+    and the tree the spec's outcome row['exp'] stands for"""
     import html5lib
     from html5lib import treebuilders
-    exp = row["exp"]
+    exp, k, pos = row["exp"], row["k"], row["pos"]
+    text_kind = k["yields"] == "text"
     eff = exp["enc"] if exp["out"] == "binary" else "utf-8"
-    text = "<p>x" + ROW_EXTRA.get(eff, "") + "</p>\r\n<i>y"
+    if eff == "none":
+        eff = row["ov"] if row["ov"] != "none" else row["tr"] if row["tr"] != "none" else "utf-8"
+    body = "<p>x" + ROW_EXTRA.get(eff, "") + "</p>\r\n<i>y"
+    prefix = ROW_PREFIX if pos in ("mid", "end") else ""
     kw = {}
     if row["ov"] != "none":
         kw["override_encoding"] = row["ov"]
     if row["tr"] != "none":
         kw["transport_encoding"] = row["tr"]
-    k = row["k"]
-    if k == "str":
-        src = text
-    elif k == "stringio":
-        src = io.StringIO(text, newline="")
-    elif k == "shorttext":
-        src = Scripted(cut(text, [3, 2, 4]), "")
+    if text_kind:
+        whole, consumed = prefix + body, len(prefix)
     else:
-        data = encode(text, eff)
-        if row["bom"] != "none":
-            data = BOMS[row["bom"]] + data
+        bom = BOMS[row["bom"]] if row["bom"] != "none" else b""
+        pre = encode(prefix, eff)
+        whole, consumed = pre + bom + encode(body, eff), len(pre)
         kw["useChardet"] = False
-        src = byte_source(k, data, eff)
+    if pos == "end":
+        consumed = len(whole)
+    if k["name"] == "duck":
+        inner = io.StringIO(whole, newline="") if text_kind else io.BytesIO(whole)
+        src, keep = _duck(inner, k["seek"], k["mode"]), inner
+    else:
+        src, keep = library_source(k["name"], whole, eff)
+    if k["name"] not in ("str", "bytes"):
+        if k["name"] not in ("httpresponse", "httpchunked", "addinfourl"):
+            _claims(src, k)
+        got = src.read(0)[:0]
+        while len(got) < consumed:                       # the caller reads the prefix (or everything) first
+            piece = src.read(consumed - len(got))
+            if not piece:
+                raise RuntimeError("cannot position %s" % k["name"])
+            got += piece
+        if got != whole[:consumed]:
+            raise RuntimeError("positioning %s read %r" % (k["name"], got))
+        if pos == "closed":
+            src.close()
+    # the document the spec's outcome stands for
+    frm = exp["from"]
+    if frm == "current":
+        doc = body if pos in ("start", "mid") else ""
+    elif frm == "start":
+        doc = whole if text_kind else whole.decode(codec_name(eff))
+    elif frm == "start+bom":
+        doc = whole[len(BOMS[row["bom"]]):].decode(codec_name(eff))
+    else:
+        doc = None
 
     def parse(source, **kws):
         p = html5lib.HTMLParser(treebuilders.getTreeBuilder("etree", fullTree=True), namespaceHTMLElements=False)
-        doc = p.parseFragment(source, **kws) if fragment else p.parse(source, **kws)
-        return json.dumps(proj(doc), sort_keys=True)
+        d = p.parseFragment(source, **kws) if fragment else p.parse(source, **kws)
+        return json.dumps(proj(d), sort_keys=True)
+    want = parse(doc) if doc is not None else None
     try:
         with recording() as box:
             tree = parse(src, **kw)
-    except TypeError as ex:
-        return {"out": "TypeError", "enc": "none", "conf": "none", "same_tree": True, "detail": str(ex)}
+    except (TypeError, ValueError) as ex:
+        return {"out": type(ex).__name__, "enc": "none", "conf": "none", "tree": None, "want": want, "detail": str(ex)[:200]}
     except Exception as ex:      # noqa
-        return {"out": "raised %r" % ex, "enc": "none", "conf": "none", "same_tree": False}
+        return {"out": "raised %r" % ex, "enc": "none", "conf": "none", "tree": None, "want": want}
+    finally:
+        for o in (src, keep):
+            try:
+                o.close()
+            except Exception:      # noqa
+                pass
     real = box[-1].real
     out = {"HTMLUnicodeInputStream": "unicode", "HTMLBinaryInputStream": "binary"}.get(type(real).__name__, type(real).__name__)
-    return {"out": out, "enc": real.charEncoding[0].name, "conf": real.charEncoding[1], "same_tree": tree == parse(text)}
+    return {"out": out, "enc": real.charEncoding[0].name, "conf": real.charEncoding[1], "tree": tree, "want": want}
